@@ -254,3 +254,45 @@ func (e *Env) finish() {
 // Abort is installed as simcore.AbortFn by simnode; declared here for worlds that need to end a
 // run from inside a task (e.g. after recording a violation while other tasks hold real locks).
 var Abort func(res *Result, why string)
+
+// Merge accumulates the statistics of one scheduler run into the plan's result.
+func (r *Result) Merge(res *simcore.Result) {
+	s, a := &r.Stats, res.Stats
+	s.Events += a.Events
+	s.Steps += a.Steps
+	s.Switches += a.Switches
+	s.SwitchHash = s.SwitchHash*0x100000001b3 ^ a.SwitchHash
+	s.GC += a.GC
+	s.Grow += a.Grow
+	if a.Aborted != "" {
+		s.Aborted = a.Aborted
+	}
+	addI := func(dst *map[string]int, src map[string]int) {
+		for k, v := range src {
+			if *dst == nil {
+				*dst = map[string]int{}
+			}
+			(*dst)[k] += v
+		}
+	}
+	addU := func(dst *map[string]uint64, src map[string]uint64) {
+		for k, v := range src {
+			if *dst == nil {
+				*dst = map[string]uint64{}
+			}
+			(*dst)[k] += v
+		}
+	}
+	addI(&s.Faults, a.Faults)
+	addI(&s.Probes, a.Probes)
+	addU(&s.Preempts, a.Preempts)
+	addU(&s.Sites, a.Sites)
+	r.Fired = append(r.Fired, res.Fired...)
+}
+
+// PhaseConfig returns the scheduler config for the n-th scheduler run of the plan.
+func (p *Plan) PhaseConfig(n int) simcore.Config {
+	c := p.SchedConfig()
+	c.Phase = n
+	return c
+}
